@@ -70,7 +70,9 @@ func genC16(t *rapid.T) C16Sc {
 	return sc
 }
 
-func c16Addr(i int) *net.UDPAddr { return &net.UDPAddr{IP: net.IP{31, 2, byte(i / 200), byte(1 + i%200)}, Port: 4000 + i} }
+func c16Addr(i int) *net.UDPAddr {
+	return &net.UDPAddr{IP: net.IP{31, 2, byte(i / 200), byte(1 + i%200)}, Port: 4000 + i}
+}
 
 type c16Resp struct {
 	node   int
